@@ -66,7 +66,20 @@ func zzSetupTotal(dir, pkg string, keywords []string) {
 		}
 	case 4: // dir { \n T1 T2 T3 \n }  (only for small vocabularies in the quick tier)
 		if len(vocab) > 16 && verifrt.Tier() == 0 {
-			return
+			// large vocabularies: a sub-directive followed by two value-like arguments (entries that are
+			// not plain lower-case words: versions, sizes, files, addresses, plus the generic values)
+			var values []string
+			for _, v := range vocab {
+				word := v != ""
+				for i := 0; i < len(v); i++ {
+					word = word && (v[i] >= 'a' && v[i] <= 'z' || v[i] == '_')
+				}
+				if !word {
+					values = append(values, v)
+				}
+			}
+			toks = append(toks, tok(1, "{"), tok(2, pick("t1")), tok(2, values[verifrt.Choose("v2", len(values))]), tok(2, values[verifrt.Choose("v3", len(values))]), tok(3, "}"))
+			break
 		}
 		toks = append(toks, tok(1, "{"), tok(2, pick("t1")), tok(2, pick("t2")), tok(2, pick("t3")), tok(3, "}"))
 	default: // thorough: dir T1 { \n T2 T3 \n T4 \n }
@@ -158,7 +171,7 @@ func VerifH11Templates() { zzSetupTotal("templates", "github.com/tmpim/casket/ca
 
 func VerifH11Timeouts() { zzSetupTotal("timeouts", "github.com/tmpim/casket/caskethttp/timeouts", []string{"header", "idle", "none", "read", "write", "1s", "0", "-1s", "abc"}) }
 
-func VerifH11Tls() { zzSetupTotal("tls", "github.com/tmpim/casket/caskettls", []string{"CERTIFICATE", "EC PARAMETERS", "EC PRIVATE KEY", "PRIVATE KEY", "alpn", "ask", "ca", "cert_obtained", "ciphers", "clients", "curves", "dns", "http", "https", "key_type", "load", "max_certs", "must_staple", "no_redirect", "off", "protocols", "request", "require", "self_signed", "verify_if_given", "wildcard", "a@b.c", "cert.pem", "key.pem", "tls1.2", "tls1.0", "p256", "X25519", "http2"}) }
+func VerifH11Tls() { zzSetupTotal("tls", "github.com/tmpim/casket/caskettls", []string{"CERTIFICATE", "EC PARAMETERS", "EC PRIVATE KEY", "PRIVATE KEY", "alpn", "ask", "ca", "cert_obtained", "ciphers", "clients", "curves", "dns", "http", "https", "key_type", "load", "max_certs", "must_staple", "no_redirect", "off", "protocols", "request", "require", "self_signed", "verify_if_given", "wildcard", "a@b.c", "cert.pem", "key.pem", "tls1.2", "tls1.3", "tls1.0", "p256", "X25519", "http2"}) }
 
 func VerifH11Tryfiles() { zzSetupTotal("tryfiles", "github.com/tmpim/casket/caskethttp/tryfiles", []string{"/", "except", "without", "{path}", "x"}) }
 
